@@ -1001,6 +1001,39 @@ Proof.
     lra.
 Qed.
 
+(** the call made by [findWallVelocityDetonation]: both end tuples supplied, the lower one with
+    non-positive pressure.  No doubling happens, the bracket is not moved, a reported velocity
+    lies in it and is typed as a detonation when the bracket lies above vJ. *)
+Theorem given_bracket_window s0 vlo vhi g0 oMin oMax fuel o v :
+  rootfind_contract -> 0 < c_endTol c -> vlo < vhi -> eo_pressure oMin <= 0 ->
+  solveWall s0 vlo vhi g0 (Some oMin) (Some oMax) fuel = RDone o ->
+  r_success (o_res o) = true -> r_velocity (o_res o) = Some v ->
+  o_doublings o = 0%nat /\ o_vmin o = vlo /\ vlo <= v /\ v <= vhi /\
+  (c_vJ c < vlo -> r_type (o_res o) = Detonation) /\
+  (vhi <= c_vJ c -> r_type (o_res o) = Deflagration).
+Proof.
+  intros HRF Hend Hlt Hp H Hs Hv.
+  destruct (success_brackets _ _ _ _ _ _ _ _ _ HRF Hend Hlt H Hs Hv)
+    as [s [tr [cMin [cMax [HB [_ [_ [_ [Hlo [Hhi _]]]]]]]]]].
+  assert (Hk : o_doublings o = 0%nat /\ o_vmin o = vlo).
+  { unfold bracket_phase in HB. cbn [optEval] in HB.
+    destruct (Qltb (pressureOf (mkSourced oMax GivenMax)) 0); [discriminate|].
+    assert (E : Qltb 0 (pressureOf (mkSourced oMin GivenMin)) = false).
+    { apply Qltb_false. exact Hp. }
+    destruct fuel as [|f]; cbn [doubling] in HB; rewrite E in HB;
+      inversion HB; split; reflexivity. }
+  destruct Hk as [Hk Hvm]. rewrite Hvm in Hlo.
+  repeat split; try assumption.
+  - intro HJ.
+    destruct (success_checks _ _ _ _ _ _ _ _ _ H Hs Hv) as [_ [_ [_ [_ [_ [_ [_ [_ [[D _]|[_ D]]]]]]]]]].
+    + exact D.
+    + exfalso. lra.
+  - intro HJ.
+    destruct (success_checks _ _ _ _ _ _ _ _ _ H Hs Hv) as [_ [_ [_ [_ [_ [_ [_ [_ [[_ D]|[D _]]]]]]]]]].
+    + exfalso. lra.
+    + exact D.
+Qed.
+
 (** [findWallVelocityDeflagrationHybrid]: a reported velocity lies in
     [vMin, min(vJ, fastestDeflag)] and is typed as a deflagration *)
 Theorem success_in_window s0 vMinHydro fastestDeflag thickIni nFields fuel o v :
